@@ -65,7 +65,7 @@ def validate_events(rep: Report, events: List[dict], label: str) -> int:
         return 0
     cfg = "\n".join([
         "CONSTANTS", "  NUnits = 0", "  Lines = {}", "  RangeSet = {}", "  Payloads = {}", "  Brk = 999999",
-        "  ExplicitTxns = {}", "  IgnoreSets = {}", "  MaxYields = 0", "  NGroups = 1", "  MaxIter = 5",
+        "  ExplicitTxns = {}", "  IgnoreSets = {}", "  MaxYields = 0", "  NGroups = 1", "  MaxIter = 5", "  Dedent = 0", "  WsUnits = {}", "  Forbidden = {}",
         "INIT TraceInit", "NEXT TraceNext", "CHECK_DEADLOCK FALSE", ""])
     done = 0
     B = 4000
